@@ -19,11 +19,14 @@ META = {
         "state (imported from C13.3: nothing is shared between requests, so there is nothing to cross-talk through); C12.5 "
         "do_POST wraps read + dispatch in a catch-all that still answers, its read loop leaves on an empty read (imported from "
         "C02.2 / C17.3), and the default request pool is created and started in the constructor and stored before the base "
-        "constructor can accept connections."),
+        "constructor can accept connections; C12.7 every normal path through the constructors of the dispatcher, the plain and pooled "
+        "servers and the CGI handler runs the constructor of each state-carrying base (frozen table BASE_INITS), and each hands on the "
+        "configuration it received."),
     "does_not_decide": "absence of cross-talk, lost or duplicated executions under concurrency as observed behaviour; "
                        "termination of server_close with in-flight requests.",
     "rules": {"C12.1": "call-site typestate (who-may-call shutdown, guard scan)", "C12.2": "dominance / post-dominance on normal paths",
-              "C12.3": "provenance + statement scan", "C12.4": "imported C13.3", "C12.5": "imported C02.2, C17.3 + dominance in the constructor", "C12.6": "imported C10.7, C10.7b"},
+              "C12.3": "provenance + statement scan", "C12.4": "imported C13.3", "C12.5": "imported C02.2, C17.3 + dominance in the constructor", "C12.6": "imported C10.7, C10.7b",
+              "C12.7": "must-call of base constructors on normal paths + provenance of the config argument"},
     "assumptions": ["socketserver.TCPServer.server_close closes the listening socket; ThreadingMixIn.process_request_thread handles and shuts the request down"],
 }
 
@@ -139,3 +142,8 @@ def check(ck):
     from rules import c10
     common.import_rules(ck, c10, {"C10.7": "C12.6", "C10.7b": "C12.6"})
     ck.floor("C12.6", 6)
+
+    # ---- C12.7 constructor chain of the server classes ---------------------------------------------------------------
+    common.check_base_constructors(ck, "C12.7", classes=[k for k in common.BASE_INITS if k.startswith("SimpleJSONRPCServer.")])
+    common.check_config_forwarding(ck, "C12.7")
+    ck.floor("C12.7", 10)
